@@ -1,0 +1,13 @@
+//go:build !verif
+
+package desync
+
+import "os"
+
+func verifCanClone(dstFile, srcFile string) (handled, ok bool) { return false, false }
+
+func verifCloneRange(dst, src *os.File, srcOffset, srcLength, dstOffset uint64) (handled bool, err error) {
+	return false, nil
+}
+
+func verifBlocksize(name string) uint64 { return 0 }
